@@ -17,9 +17,10 @@ class Inconclusive(Exception):
 
 
 class Obligation:
-    def __init__(self, oid, props, fn, nec, tier, kind, configs):
+    def __init__(self, oid, props, fn, nec, tier, kind, configs, also=()):
         self.id = oid
         self.props = props
+        self.also = tuple(also)
         self.fn = fn
         self.nec = nec
         self.tier = tier
@@ -31,9 +32,12 @@ class Obligation:
 REGISTRY: list[Obligation] = []
 
 
-def ob(oid, props, nec, tier="q", kind="", configs=("default",)):
+def ob(oid, props, nec, tier="q", kind="", configs=("default",), also=()):
+    """props: properties every untagged check of this obligation counts for.
+    also: properties for which only checks explicitly tagged with cx.only(prop) count."""
+
     def deco(fn):
-        REGISTRY.append(Obligation(oid, props, fn, nec, tier, kind, configs))
+        REGISTRY.append(Obligation(oid, props, fn, nec, tier, kind, configs, also))
         return fn
 
     return deco
@@ -69,6 +73,22 @@ class Cx:
         self.facts: mirlib.Facts = facts
         self.specimen: mirlib.Facts | None = specimen
         self.res = Result(ob, config)
+        self._only = None
+
+    def only(self, *props):
+        """Context manager: checks recorded inside count only for the given properties
+        (directional obligations: a precision check must not alarm a soundness property)."""
+        cx = self
+
+        class _C:
+            def __enter__(s):
+                s.prev = cx._only
+                cx._only = set(props)
+
+            def __exit__(s, *a):
+                cx._only = s.prev
+
+        return _C()
 
     # -- anchors ------------------------------------------------------------------------------
     def fn(self, rx, facts=None) -> mirlib.Body:
@@ -137,7 +157,7 @@ class Cx:
             fnpath = body.path
         k = "%s %s %s" % (self.ob.id, fnpath or "-", key or what)
         self.res.checks.append(
-            {"ok": bool(ok), "what": what, "where": where, "fn": fnpath, "detail": detail, "key": k}
+            {"ok": bool(ok), "what": what, "where": where, "fn": fnpath, "detail": detail, "key": k, "props": sorted(self._only) if self._only else None}
         )
         return bool(ok)
 
@@ -168,6 +188,12 @@ class Cx:
         ok = eng.returns_only_if(pred, lit)
         p = sorted(pred) if not isinstance(pred, bool) else pred
         return self.check(ok, what or "returns %s only if %r" % (p, lit), None, None, key="ret %s onlyif %r" % (p, lit), body=body)
+
+    def dominated_by_any(self, b, sites, what):
+        """Every normal path to site b executes one of `sites` first."""
+        reach = b.body.reachable(0, "normal", cut_blocks={s.bb for s in sites})
+        ok = b.bb not in reach or any(s.bb == b.bb and s.idx < b.idx for s in sites)
+        return self.check(ok, what, b, {"any_of": [repr(s) for s in sites]}, key="dom-any " + what)
 
     def order(self, a, b, what, view="normal"):
         """ORDER: site a dominates site b."""
@@ -224,7 +250,7 @@ def _cx_skipped_only_if(self, body, site, lit, what=None, exits=None):
     """Every normal path from entry to an exit that does not execute `site` crosses an edge
     establishing lit."""
     eng = mirlib.OnlyIf(body.facts, body)
-    edges = eng.establishing_edges(lit)
+    edges = eng.establishing_edges(lit)  # lit may be a list: disjunction
     exits = exits if exits is not None else body.return_blocks()
     reach = body.reachable(0, "normal", cut_edges=edges, cut_blocks={site.bb})
     bad = [e for e in exits if e in reach and e != site.bb]
@@ -270,7 +296,7 @@ def run_property(prop, tier, facts_by_config, specimen_by_config, seed=0):
     known_keys = {k["key"]: k for k in known}
     results = []
     for o in REGISTRY:
-        if prop not in o.props:
+        if prop not in o.props and prop not in o.also:
             continue
         if o.tier == "t" and tier != "thorough":
             continue
@@ -294,6 +320,9 @@ def run_property(prop, tier, facts_by_config, specimen_by_config, seed=0):
                     e,
                     traceback.format_exc().strip().splitlines()[-3:],
                 )
+            cx.res.checks = [c for c in cx.res.checks if (c.get("props") is None and prop in o.props) or (c.get("props") and prop in c["props"])]
+            if not cx.res.checks and not cx.res.inconclusive:
+                continue  # nothing of this obligation concerns this property
             results.append(cx.res)
     lines = []
     exit_code = 0
